@@ -91,17 +91,27 @@ func (s *sessions) update(h Header, n Handler) {
 func (s *sessions) delete(session SessionID) {
 	s.Lock()
 	defer s.Unlock()
+	sc, ok := s.known[session]
+	if !ok {
+		// never registered (or already gone): the active gauge was not incremented for it
+		return
+	}
 	sessionsActive.Dec()
-	if sc := s.known[session]; sc != nil {
+	if sc != nil {
 		sc.timer.ObserveDuration()
 	}
 	delete(s.known, session)
 }
 
-// close will stop all prom timers, it's the only reason we have this
+// close will stop all prom timers and release the sessions that are still open
+// when the connection goes away, so that the active gauge returns to rest
 func (s *sessions) close() {
-	for _, r := range s.known {
+	s.Lock()
+	defer s.Unlock()
+	for id, r := range s.known {
 		r.timer.ObserveDuration()
+		sessionsActive.Dec()
+		delete(s.known, id)
 	}
 }
 
